@@ -81,7 +81,7 @@ func isDefinitionRejection(err error) bool {
 		return false
 	}
 	m := err.Error()
-	for _, k := range []string{"syntax error", "unsupported number", "no terminating", "unexpected char", "unsupported CREATE TABLE", "invalid object definition", "no CREATE TABLE attached"} {
+	for _, k := range []string{"syntax error", "unsupported number", "unsupported: AS", "no terminating", "unexpected char", "unsupported CREATE TABLE", "invalid object definition", "no CREATE TABLE attached"} {
 		if strings.Contains(m, k) {
 			return true
 		}
